@@ -651,6 +651,10 @@ class ExprMixin:
                 return [(st, self.list_seq(st, a) == self.list_seq(st, b))]
         if isinstance(a, (VConst, VClass, VExcClass, VFunc)) or isinstance(b, (VConst, VClass, VExcClass, VFunc)):
             return [(st, z3.BoolVal(False))]
+        for x, y in ((a, b), (b, a)):
+            # a builtin container never equals a number, string, bool or None
+            if isinstance(x, VRef) and isinstance(st.deref(x), (HList, HDict, HODict, HDeque)) and isinstance(y, (VInt, VBool, VStr, VNone, VFlt)):
+                return [(st, z3.BoolVal(False))]
         raise Unsupported(f"== between {type(a).__name__} and {type(b).__name__}")
 
     def flt_term(self, v):
